@@ -332,11 +332,28 @@ func main() {
 		})
 
 		r.Part("E3-whole-frames", func(t *explore.T) {
-			sizes := []int{0, 1, 125, 126, 127, 65535, 65536, 65537, 1 << 20, 1<<20 + 1, 1<<21 + 3}
+			// every payload length up to 4200 (past the usual MTU- and page-sized staging buffers),
+			// windows around the larger powers of two, and a few large ones
+			var sizes []int
+			for n := 0; n <= 4200; n++ {
+				sizes = append(sizes, n)
+			}
+			for _, c := range []int{8192, 16384, 32768, 65536, 1 << 20} {
+				for d := -20; d <= 20; d++ {
+					sizes = append(sizes, c+d)
+				}
+			}
+			sizes = append(sizes, 1<<21+3)
 			for _, n := range sizes {
 				for _, masked := range []bool{false, true} {
 					for _, chunk := range []int{0, 1, 7} {
 						if chunk == 1 && (n > 1000 && !t.Thorough() || n > 100000) {
+							continue
+						}
+						if chunk == 7 && n > 200 && n < 65000 && n%97 != 0 {
+							continue // chunked reading on a sample of the dense range
+						}
+						if n >= 1<<20-20 && n <= 1<<20+20 && n != 1<<20 && n != 1<<20+1 && n != 1<<20-1 && masked {
 							continue
 						}
 						n, masked, chunk := n, masked, chunk
